@@ -12,7 +12,7 @@ THEOREMS = ["Genql.C06." + t for t in [
     ["Genql.Pipeline." + t for t in ["select_pipeline", "select_filter_project", "select_distinct"]] + \
     ["Genql.ValEqEquiv." + t for t in ["valEq_refl", "valEq_symm", "valEq_trans", "subset_of_nodup_length"]] + \
     ["Genql.C06." + t for t in ["sameWF_equiv", "dedupBy_val", "distinct_model_first_occurrence", "distinct_model_idempotent",
-                               "setKey_nodup", "union_model", "union_all_model"]] + \
+                               "setKey_nodup", "union_model", "union_all_model", "nested_union_inner_window"]] + \
     ["Genql.Obligations.C05.exec_stage_order"]
 TRUSTED = ["fmt %#v renders JSON-like rows injectively (keys sorted, strings quoted) and SHA-256 is collision free: the Go "
            "fingerprint identifies exactly equal rows; probed with adversarial strings", "sqlparser"]
